@@ -963,6 +963,20 @@ pub fn gen(prop: &str, rng: &mut Rng, quick: bool, st: &mut Stats) -> Option<Vec
                 }
                 st.bump("archives_forcing_leaf_directories");
             }
+            // tile counts that put an uncompressed root directory just below, inside and above (16257, 16384]
+            for (i, n) in [4060usize, 4063, 4064, 4065, 4080, 4095, 4096, 4097].iter().enumerate() {
+                let (w, r) = fam(i);
+                let mut ops = vec!["c:none".to_string()];
+                for t in 0..*n {
+                    ops.push(format!("a:{:x}:{:02x}{:02x}", 2 * t, t % 251, t / 251));
+                }
+                if prop == "C01" {
+                    c.push(format!("chk_roundtrip {w} {r} {}", ops.join(";")));
+                } else {
+                    c.push(format!("chk_valid {w} {}", ops.join(";")));
+                }
+                st.bump("archives_steered_to_root_window");
+            }
             // one model-compared archive with leaf directories (None codec keeps it small enough)
             {
                 let ops = seeded_spill_ops(rng.next(), 4300, Compression::None);
